@@ -24,7 +24,8 @@ CONSISTENT = ("unique", "unique_minor_difference", "ambiguous")
 # ------------------------------------------------------------------------------------------------ annotation grammar
 def slot(base, i):
     # slot lengths differ by 50 bp (> 2*delta of every preset): IsoQuant's terminal-exon-misalignment heuristic treats a terminal
-    # exon whose length is within 2*delta of the annotated one as the same exon aligned elsewhere - a band this check stays out of
+    # exon whose length is within 2*delta of the annotated one as the same exon aligned elsewhere; the lattice itself stays out of that
+    # band, the negative kind alt-terminal-same-length enters it deliberately (known finding)
     s = base + 800 * i + 1
     return (s, s + 199 + 50 * i)
 
@@ -245,6 +246,10 @@ def negative_reads(tid, chrom, strand, exons, delta=0):
         out.append(("far-site", [(exons[0][0], exons[0][1] - 90)] + list(exons[1:])))            # donor moved 90 bp
         out.append(("extended", [(exons[0][0] - 450, exons[0][1])] + list(exons[1:])))           # left end extended by 450 bp
         out.append(("extended-right", list(exons[:-1]) + [(exons[-1][0], exons[-1][1] + 450)]))   # right end extended by 450 bp
+    if n >= 3:
+        # the last exon replaced by a block of the SAME length 500 bp further downstream (acceptor and end both 500 bp away): IsoQuant's
+        # terminal-exon-misalignment heuristic compares exon lengths only
+        out.append(("alt-terminal-same-length", list(exons[:-1]) + [(exons[-1][0] + 500, exons[-1][1] + 500)]))
     res = [{"blocks": [tuple(b) for b in bl], "extras": {"reverse": strand == "-"}, "kind": kind, "T": tid, "chr": chrom} for kind, bl in out
            if all(b[0] >= 1 for b in bl)]
     # the same distant ends on reads that carry a polyA tail / polyT head (the tail must not make a distant end acceptable)
